@@ -85,7 +85,7 @@ def random_callset(rng, nsamples=None, nrecords=None, p_missing=None, p_multi=No
     if use_info:
         info_defs = {"DP": ("1", "Integer"), "AF": ("A", "Float"), "DB": ("0", "Flag"), "XL": (".", "Integer")}
     if use_fmt:
-        fmt_defs.update({"AD": ("R", "Integer"), "DP": ("1", "Integer"), "GQ": ("1", "Integer")})
+        fmt_defs.update({"AD": ("R", "Integer"), "DP": ("1", "Integer"), "GQ": ("1", "Integer"), "PGT": ("1", "String"), "PID": ("1", "String"), "FT": ("1", "String")})
     filters = ["PASS", "q10"] if rng.random() < 0.3 else ["PASS"]
     records = []
     pos = {c: 0 for c, _ in contigs}
@@ -146,15 +146,30 @@ def random_callset(rng, nsamples=None, nrecords=None, p_missing=None, p_multi=No
             if rng.random() < 0.6:
                 extra_fmt["GQ"] = [None if rng.random() < 0.2 else rng.randrange(0, 99) for _ in range(ns)]
         no_gt = False
-        if use_fmt and not complete_only and rng.random() < 0.03:
+        if use_fmt and not complete_only and rng.random() < 0.05:
             # a record whose FORMAT has no GT key at all (valid): every sample is missing
             no_gt = True
             gts = [gt((None, None), False) for _ in range(ns)]
-            if rng.random() < 0.5:
+            r_ = rng.random()
+            if r_ < 0.25:
                 extra_fmt = {"DP": [rng.randrange(0, 300) for _ in range(ns)]}
+            elif r_ < 0.5:
+                # a String-typed first field whose values look like genotypes (GATK's physical phasing fields) or like nothing of the kind
+                if rng.random() < 0.6:
+                    extra_fmt = {"PGT": [rng.choice(["0|1", "1|0", "1|1", "0|1", "."]) for _ in range(ns)], "PID": ["%d_A_C" % pos[contig] for _ in range(ns)]}
+                else:
+                    extra_fmt = {"FT": [rng.choice(["PASS", "lowGQ", "."]) for _ in range(ns)], "DP": [rng.randrange(0, 300) for _ in range(ns)]}
+            elif r_ < 0.65:
+                extra_fmt = {}              # no FORMAT field at all (FORMAT '.', every sample '.'; in BCF n_fmt = 0)
             else:
                 # two small integers per sample as the first FORMAT field: byte-compatible with an int8 diploid GT vector
                 extra_fmt = {"AD": [[rng.choice([2, 3, 4, 5]), rng.choice([2, 3, 4, 5])] for _ in range(ns)], "DP": [rng.randrange(0, 300) for _ in range(ns)]}
+        if records and not no_gt and rng.random() < 0.05 and records[-1].contig == contig and not records[-1].no_gt:
+            # the previous record once more: same contig, same position, same calls (an overlapping indel, a split multiallelic site,
+            # a record present in two merged files) - it counts again
+            prev = records[-1]
+            pos[contig] = prev.pos
+            gts, alts = list(prev.gts), list(prev.alts)
         rec = Record(contig, pos[contig], gts, ref=rng.choice(["A", "C", "G", "T", "AT"]), alts=alts, no_gt=no_gt,
                      id="." if rng.random() < 0.7 else "rs%d" % rng.randrange(10 ** 6),
                      qual=None if rng.random() < 0.6 else rng.choice([0, 10, 29.5, 100, 3000]),
